@@ -10,6 +10,7 @@ DIRECTIVES = ('ret', 'props', 'requires', 'ensures', 'decreases', 'attr', 'loop'
 class Clause:
     def __init__(self, kind, tags, label, expr, lineno):
         self.kind, self.tags, self.label, self.expr, self.lineno = kind, tags, label, expr, lineno
+        self.strict = False
 
 
 class ItemSpec:
@@ -206,10 +207,12 @@ def parse(path):
         elif word == 'params':
             cur.params = rest
             i += 1
-        elif word in ('requires', 'ensures'):
+        elif word in ('requires', 'ensures', 'ensures!'):
             full, i = take_cont(i, rest)
             tags, label, expr = parse_tagged(full, lineno, path)
-            cur.clauses.append(Clause(word, tags, label, expr, lineno))
+            c = Clause('ensures' if word == 'ensures!' else word, tags, label, expr, lineno)
+            c.strict = (word == 'ensures!')
+            cur.clauses.append(c)
         elif word == 'decreases':
             full, i = take_cont(i, rest)
             cur.clauses.append(Clause('decreases', [], None, full, lineno))
